@@ -26,8 +26,28 @@ func New(enableWeight bool) *Random {
 	return &Random{
 		enableWeight: enableWeight,
 		mapValues:    make(map[string]struct{}),
-		rand:         rand.New(rand.NewSource(time.Now().UnixNano())),
+		rand:         rand.New(&lockedSource{src: rand.NewSource(time.Now().UnixNano())}),
 	}
+}
+
+// lockedSource serialises the generator: Select draws from it while holding only
+// the read lock, so several selections can draw at the same time, and a
+// *rand.Rand over a plain source is not safe for that.
+type lockedSource struct {
+	mu  sync.Mutex
+	src rand.Source
+}
+
+func (s *lockedSource) Int63() int64 {
+	s.mu.Lock()
+	defer s.mu.Unlock()
+	return s.src.Int63()
+}
+
+func (s *lockedSource) Seed(seed int64) {
+	s.mu.Lock()
+	defer s.mu.Unlock()
+	s.src.Seed(seed)
 }
 
 func (r *Random) Select(_ selector.Message) (endpoint.Endpoint, error) {
